@@ -1124,6 +1124,17 @@ func (g *FnGen) checkReturnAsserts() {
 			rv.Go = sig.Results().At(i).Type()
 			rs = append(rs, rv)
 		}
+		// result names denote the RETURNED values here, also when a local of the same name (err,
+		// or a named result variable) is in scope
+		for _, n := range []string{"err", "result"} {
+			delete(env, n)
+		}
+		for i := 0; i < sig.Results().Len(); i++ {
+			delete(env, fmt.Sprintf("result%d", i))
+			if nm := sig.Results().At(i).Name(); nm != "" && nm != "_" {
+				delete(env, nm)
+			}
+		}
 		resultEnv(env, sig, rs)
 		g.st = r.st
 		for i, c := range g.C.ReturnAsserts {
